@@ -27,9 +27,10 @@ Definition meta_eqb (a b : meta) : bool :=
 (** DagBuilderHelper.HasFileAttributes (no filestore) *)
 Definition has_attrs (m : meta) : bool := negb (m_mode m =? 0) || m_has_mtime m.
 
-(** defect switches: [true] = what the code does today *)
+(** defect switches: [true] = the code without the repair of that finding, [false] = with it *)
 Record flags := Flags {
-  f_raw_root_meta : bool   (* C07-1: SetFileAttributes is a silent no-op when the root is a RawNode *)
+  f_raw_root_meta : bool   (* C07-1: balanced.Layout leaves a raw-block root as it is, and
+                              SetFileAttributes is a silent no-op on it *)
 }.
 Definition flags_on := Flags true.
 Definition flags_off := Flags false.
@@ -124,17 +125,16 @@ Section Build.
   Definition is_raw_root (t : tree D) : bool :=
     match t with Leaf KRaw _ _ => true | _ => false end.
 
-  (** flag on  (code today): attributes are only written into a ProtoNode root;
-      flag off (what the property demands): a root that has to carry attributes
-      is a UnixFS (dag-pb) leaf *)
+  (** flag on  (code before fixes/C07-1): attributes are only written into a ProtoNode
+      root, a raw root silently stays without them;
+      flag off (the repaired code): a raw root that has to carry attributes becomes
+      the only child of a UnixFS File node (AddChild with the block length), which
+      then takes the attributes *)
   Definition finish (fl : flags) (req : meta) (t : tree D) : tree D * meta :=
     if has_attrs req then
       if is_raw_root t then
         if f_raw_root_meta fl then (t, no_meta)
-        else match t with
-             | Leaf _ rs d => (Leaf KPbFile rs d, req)
-             | _ => (t, req)
-             end
+        else (mk_node [t], req)
       else (t, req)
     else (t, no_meta).
 
